@@ -27,10 +27,11 @@ Lim(k, v) == [k |-> k, v |-> v]
 
 ---------------------------------------------------------------------------
 (* limits *)
-InLower(l, x) == CASE l.k \in {"absent", "INFINITE"} -> TRUE
+\* INFINITEV: INTERVAL-TYPE="INFINITE" on a limit that nevertheless carries a value (the value is irrelevant)
+InLower(l, x) == CASE l.k \in {"absent", "INFINITE", "INFINITEV"} -> TRUE
                    [] l.k = "OPEN" -> RLt(R(l.v), x)
                    [] OTHER -> RLe(R(l.v), x)              \* CLOSED, or no INTERVAL-TYPE given
-InUpper(l, x) == CASE l.k \in {"absent", "INFINITE"} -> TRUE
+InUpper(l, x) == CASE l.k \in {"absent", "INFINITE", "INFINITEV"} -> TRUE
                    [] l.k = "OPEN" -> RLt(x, R(l.v))
                    [] OTHER -> RLe(x, R(l.v))
 InScale(s, x) == InLower(s.lo, x) /\ InUpper(s.hi, x)
@@ -91,8 +92,8 @@ I2P(c, p) ==
 
 (* physical -> internal: the set of exact values the inverse formula admits for y *)
 Hull(s) == \* closed hull of the image of a linear scale: <<has lower, lower, has upper, upper>>
-    LET bl == s.lo.k \notin {"absent", "INFINITE"}
-        bh == s.hi.k \notin {"absent", "INFINITE"}
+    LET bl == s.lo.k \notin {"absent", "INFINITE", "INFINITEV"}
+        bh == s.hi.k \notin {"absent", "INFINITE", "INFINITEV"}
         fl == RatFunc(s, R(s.lo.v))
         fh == RatFunc(s, R(s.hi.v))
         neg == RLt(Slope(s), R(0)) IN
